@@ -27,6 +27,17 @@ pub struct MaintainMessagesCommand {
     archive_messages: bool,
 }
 
+#[cfg(feature = "verif_hooks")]
+impl MaintainMessagesCommand {
+    /// Verification hook: the fields are private, the harness needs to request one pass on demand.
+    pub fn verif_new(clean_messages: bool, archive_messages: bool) -> Self {
+        Self {
+            clean_messages,
+            archive_messages,
+        }
+    }
+}
+
 #[derive(Debug, Default, Clone)]
 pub struct MaintainMessagesExecutor;
 
